@@ -2,7 +2,7 @@
 (* Trace validation (code -> spec) of ArchiveWriter against the Writer model, on traces that were NOT made by   *)
 (* this framework's drivers: the repository's own test suite (mla unit tests, the C binding's tests, every       *)
 (* `mlar` process started by mlar's integration tests) run with the entry hooks of every public writer call      *)
-(* (hook H4: call, arguments, and the scalar state left by the previous call: position of the logical stream,    *)
+(* (hook H5: call, arguments, and the scalar state left by the previous call: position of the logical stream,    *)
 (* next id, current id, number of open files, number of names, finalized).                                       *)
 (*                                                                                                               *)
 (* Each event is one action of Writer with its arguments bound to the logged ones; before it is taken, the       *)
